@@ -113,6 +113,22 @@ fn values<T: Int>(radix: u32, sparse: usize) -> Vec<IVal> {
     out
 }
 
+fn run_pairs<T: Int>(rep: &Report, cli: &Cli) {
+    if T::TY.bits <= 16 {
+        return; // exhaustive already
+    }
+    let radices = supported_radices();
+    vkit::par::par_items(&radices, cli.threads, |_, &radix| {
+        let mut c = Ck::new(rep, &format!("{}:PAIRS", T::NAME));
+        for iv in harness::intglue::pair_values::<T>(radix) {
+            if let Some(v) = T::from_ival(iv) {
+                c.check(v, radix, false);
+            }
+        }
+        c.done();
+    });
+}
+
 fn run_type<T: Int>(rep: &Report, cli: &Cli) {
     let thorough = cli.tier == "thorough";
     let radices = supported_radices();
@@ -189,6 +205,7 @@ fn main() {
         finish(&rep, &cli);
     }
     harness::for_each_int_type!(run_type, &rep, &cli);
+    harness::for_each_int_type!(run_pairs, &rep, &cli);
     if cli.tier == "thorough" && cli.extra.iter().any(|a| a == "--all32") {
         all32(&rep, &cli);
     }
